@@ -2,11 +2,13 @@ package main
 
 import (
 	"bytes"
+	"context"
 	"fmt"
 	"strings"
 
 	pipeline "github.com/buildkite/go-pipeline"
 	"github.com/buildkite/go-pipeline/ordered"
+	"github.com/buildkite/go-pipeline/signature"
 	"verifharness/sx"
 )
 
@@ -239,6 +241,33 @@ func c14different(g *docgen, c c14case) []c14case {
 		}
 		p.l[0], p.l[1] = p.l[1], p.l[0]
 		return true
+	})
+	// a plugin whose source spells one character as a JSON escape sequence (backslash, u, four hex digits) is a
+	// different plugin: the source is data, not JSON text
+	add(func(n *c14case) bool {
+		p := n.doc.get("plugins")
+		if p == nil || p.kind != 'l' {
+			return false
+		}
+		for _, e := range p.l {
+			var src *string
+			switch {
+			case e.kind == 's':
+				src = &e.s
+			case e.kind == 'm' && len(e.m) == 1 && (e.m[0].v.kind == 'n' || e.m[0].v.kind == 'm' && len(e.m[0].v.m) == 0):
+				src = &e.m[0].k
+			}
+			if src == nil || len(*src) == 0 {
+				continue
+			}
+			for ci := 0; ci < len(*src); ci++ {
+				if c := (*src)[ci]; c == '-' || c >= 'a' && c <= 'z' {
+					*src = (*src)[:ci] + fmt.Sprintf("\\u%04x", c) + (*src)[ci+1:]
+					return true
+				}
+			}
+		}
+		return false
 	})
 	// a plugin named x and one named x-buildkite-plugin are different plugins
 	add(func(n *c14case) bool {
@@ -573,6 +602,29 @@ func init() {
 						oracleFail("C14", "verify-payload-differs", cs, fmt.Sprintf("Sign logged the payload\n%s\nVerify of the same step (err=%v) logged\n%s", base, verr, vp))
 					}
 					stat("C14", "verify-payloads")
+				}
+			}
+			// the payload is the same whichever entry point signs the step: directly, or as part of a step list, at
+			// the top or inside groups
+			if st, _, err := stepFromDoc(c.doc); err == nil {
+				for depth := 0; depth < 3; depth++ {
+					cp := *st
+					var steps pipeline.Steps = pipeline.Steps{&pipeline.WaitStep{Scalar: "wait"}, &cp}
+					for d := 0; d < depth; d++ {
+						name := fmt.Sprintf("g%d", d)
+						steps = pipeline.Steps{&pipeline.GroupStep{Group: &name, Steps: steps}}
+					}
+					lg := &payloadLogger{}
+					serr := signature.SignSteps(context.Background(), steps, key.priv, c.repo, signature.WithEnv(c.penv), signature.WithLogger(lg), signature.WithDebugSigning(true))
+					if serr != nil || len(lg.payloads) != 1 || !bytes.Equal(lg.payloads[0], base) {
+						got := "none logged"
+						if len(lg.payloads) > 0 {
+							got = string(lg.payloads[0])
+						}
+						oracleFail("C14", "payload-depends-on-entry-point", cs, fmt.Sprintf("signed directly the payload is\n%s\nsigned through SignSteps at group depth %d (err=%v, %d payloads logged):\n%s", base, depth, serr, len(lg.payloads), got))
+						break
+					}
+					stat("C14", "entry-point-payloads")
 				}
 			}
 			// determinism over repeated runs (Go map iteration)
